@@ -304,9 +304,11 @@ class Response:
 
         if app_iter is None and code_has_body:
             if isinstance(body, str):
-                # Fall back to trying self.charset if encoding is not set. In
-                # most cases encoding will be set to the default value.
-                encoding = encoding or self.charset
+                # The charset the Content-Type announces (for instance one in
+                # a headerlist that was passed in) is the one the body has to
+                # be in; the charset argument is only used when none is
+                # announced.
+                encoding = self.charset or encoding
 
                 if encoding is None:
                     raise TypeError(
